@@ -8,7 +8,7 @@ for id in $ids; do
   git -C "$W" checkout -q --detach "$(git -C /repo rev-parse HEAD)" && git -C "$W" checkout -q -- . && git -C "$W" clean -qfd
   if ! git -C "$W" apply /verif/seeded/$id/patch.diff 2>/dev/null; then echo "$id: PATCH-DOES-NOT-APPLY"; continue; fi
   own=$(python3 -c "import json;print(json.load(open('/verif/seeded/$id/meta.json'))['breaks_property'])")
-  out=$(/verif/bin/waspcheck -p all -repo "$W" -out /tmp/ev_seed 2>&1 | grep -E "^  rule " | awk '{print $2}' | sort -u | tr '\n' ' ')
+  out=$(${WASPCHECK:-/verif/bin/waspcheck} -p all -repo "$W" -out /tmp/ev_seed 2>&1 | grep -E "^  rule " | awk '{print $2}' | sort -u | tr '\n' ' ')
   echo "$id (breaks $own): ${out:-MISSED}"
 done
 git -C "$W" checkout -q -- . && git -C "$W" clean -qfd
